@@ -21,18 +21,23 @@ public:
     void fin() {
         // for cache
         if (std::get<gc_target_index>(cache_node_container_) != nullptr) {
+            YAKUSHIMA_VERIF_POST(k_reclaim, o_gc_queue, std::get<gc_target_index>(cache_node_container_), std::get<gc_epoch_index>(cache_node_container_), 0);
             delete std::get<gc_target_index>(cache_node_container_); // NOLINT
             std::get<gc_target_index>(cache_node_container_) = nullptr;
         }
 
+        YAKUSHIMA_VERIF_PRE(k_load, o_gc_queue, &node_container_);
         while (!node_container_.empty()) {
             std::tuple<Epoch, base_node*> elem;
+            YAKUSHIMA_VERIF_PRE(k_rmw, o_gc_queue, &node_container_);
             if (!node_container_.try_pop(elem)) { continue; }
+            YAKUSHIMA_VERIF_POST(k_reclaim, o_gc_queue, std::get<gc_target_index>(elem), std::get<gc_epoch_index>(elem), 0);
             delete std::get<gc_target_index>(elem); // NOLINT
         }
 
         // for cache
         if (std::get<gc_target_index>(cache_value_container_) != nullptr) {
+            YAKUSHIMA_VERIF_POST(k_reclaim, o_gc_queue, std::get<gc_target_index>(cache_value_container_), std::get<gc_epoch_index>(cache_value_container_), 1);
             ::operator delete(
                     std::get<gc_target_index>(cache_value_container_),
                     std::get<gc_target_size_index>(cache_value_container_),
@@ -40,9 +45,12 @@ public:
             std::get<gc_target_index>(cache_value_container_) = nullptr;
         }
 
+        YAKUSHIMA_VERIF_PRE(k_load, o_gc_queue, &value_container_);
         while (!value_container_.empty()) {
             std::tuple<Epoch, void*, std::size_t, std::align_val_t> elem;
+            YAKUSHIMA_VERIF_PRE(k_rmw, o_gc_queue, &value_container_);
             if (!value_container_.try_pop(elem)) { continue; }
+            YAKUSHIMA_VERIF_POST(k_reclaim, o_gc_queue, std::get<gc_target_index>(elem), std::get<gc_epoch_index>(elem), 1);
             ::operator delete(std::get<gc_target_index>(elem),
                               std::get<gc_target_size_index>(elem),
                               std::get<gc_target_align_index>(elem));
@@ -62,18 +70,22 @@ public:
             if (std::get<gc_epoch_index>(cache_node_container_) >= gc_epoch) {
                 return;
             }
+            YAKUSHIMA_VERIF_POST(k_reclaim, o_gc_queue, std::get<gc_target_index>(cache_node_container_), std::get<gc_epoch_index>(cache_node_container_), 0);
             delete std::get<gc_target_index>(cache_node_container_); // NOLINT
             std::get<gc_target_index>(cache_node_container_) = nullptr;
         }
 
         // for container
+        YAKUSHIMA_VERIF_PRE(k_load, o_gc_queue, &node_container_);
         while (!node_container_.empty()) {
             std::tuple<Epoch, base_node*> elem;
+            YAKUSHIMA_VERIF_PRE(k_rmw, o_gc_queue, &node_container_);
             if (!node_container_.try_pop(elem)) { continue; }
             if (std::get<gc_epoch_index>(elem) >= gc_epoch) {
                 cache_node_container_ = elem;
                 return;
             }
+            YAKUSHIMA_VERIF_POST(k_reclaim, o_gc_queue, std::get<gc_target_index>(elem), std::get<gc_epoch_index>(elem), 0);
             delete std::get<gc_target_index>(elem); // NOLINT
         }
     }
@@ -85,6 +97,7 @@ public:
             if (std::get<gc_epoch_index>(cache_value_container_) >= gc_epoch) {
                 return;
             }
+            YAKUSHIMA_VERIF_POST(k_reclaim, o_gc_queue, std::get<gc_target_index>(cache_value_container_), std::get<gc_epoch_index>(cache_value_container_), 1);
             ::operator delete(
                     std::get<gc_target_index>(cache_value_container_),
                     std::get<gc_target_size_index>(cache_value_container_),
@@ -92,13 +105,16 @@ public:
             std::get<gc_target_index>(cache_value_container_) = nullptr;
         }
 
+        YAKUSHIMA_VERIF_PRE(k_load, o_gc_queue, &value_container_);
         while (!value_container_.empty()) {
             std::tuple<Epoch, void*, std::size_t, std::align_val_t> elem;
+            YAKUSHIMA_VERIF_PRE(k_rmw, o_gc_queue, &value_container_);
             if (!value_container_.try_pop(elem)) { continue; }
             if (std::get<gc_epoch_index>(elem) >= gc_epoch) {
                 cache_value_container_ = elem;
                 return;
             }
+            YAKUSHIMA_VERIF_POST(k_reclaim, o_gc_queue, std::get<gc_target_index>(elem), std::get<gc_epoch_index>(elem), 1);
             ::operator delete(std::get<gc_target_index>(elem),
                               std::get<gc_target_size_index>(elem),
                               std::get<gc_target_align_index>(elem));
@@ -106,19 +122,32 @@ public:
     }
 
     static Epoch get_gc_epoch() {
+#ifdef YAKUSHIMA_VERIF
+        YAKUSHIMA_VERIF_PRE(k_load, o_gc_epoch, &gc_epoch_);
+        Epoch g_ = gc_epoch_.load(std::memory_order_acquire);
+        YAKUSHIMA_VERIF_POST(k_load, o_gc_epoch, &gc_epoch_, g_, 1);
+        return g_;
+#else
         return gc_epoch_.load(std::memory_order_acquire);
+#endif
     }
 
     void push_node_container(std::tuple<Epoch, base_node*> elem) {
+        YAKUSHIMA_VERIF_PRE(k_retire, o_gc_queue, &node_container_);
+        YAKUSHIMA_VERIF_POST(k_retire, o_gc_queue, std::get<gc_target_index>(elem), std::get<gc_epoch_index>(elem), 0);
         node_container_.push(elem);
     }
 
     void push_value_container(
             std::tuple<Epoch, void*, std::size_t, std::align_val_t> elem) {
+        YAKUSHIMA_VERIF_PRE(k_retire, o_gc_queue, &value_container_);
+        YAKUSHIMA_VERIF_POST(k_retire, o_gc_queue, std::get<gc_target_index>(elem), std::get<gc_epoch_index>(elem), 1);
         value_container_.push(elem);
     }
 
     static void set_gc_epoch(const Epoch epoch) {
+        YAKUSHIMA_VERIF_PRE(k_store, o_gc_epoch, &gc_epoch_);
+        YAKUSHIMA_VERIF_POST(k_store, o_gc_epoch, &gc_epoch_, epoch, 1);
         gc_epoch_.store(epoch, std::memory_order_release);
     }
 
